@@ -677,7 +677,7 @@ func (p c13aPadder) pad(r *rng) string {
 	if !p.on || !r.chance(25) {
 		return ""
 	}
-	return pick(r, []string{" ", " ", " ", "  ", "\t", " \t ", "\u00a0", "\u00a0 "})
+	return pick(r, []string{" ", " ", " ", "  ", "\t", " \t ", "\u00a0", "\u00a0 ", "\u0085"})
 }
 
 // a free-text field as an export for a LazyQuotes reader may write it: a double quote inside a field that is not
@@ -1231,7 +1231,7 @@ func c13aGenSwisscard(r *rng, mal string) c13aCase {
 				b.WriteString(c13aCsvField(r, f, ',', false))
 			}
 		}
-		b.WriteString("\n")
+		b.WriteString(pick(r, []string{"\n", "\n", "\n", "\r\n"}))
 		c.nl = c.nl || c13aHasNewline(fields...)
 		c.facts = append(c.facts, c13aFact{c13aISO(row.date), row.amt.value(!row.credit), "CHF", false})
 	}
@@ -1276,6 +1276,14 @@ func c13aGenSupercard(r *rng, mal string) c13aCase {
 			if _, ok := c13aLatin1(row.texts[k]); !ok {
 				row.texts[k] = pick(r, []string{"Ärztliche Dienstleistungen", "Café Zürich", "Elektronikgeschäfte, Radio/TV", "Tankstelle; Shop", "×÷ÿ§"})
 			}
+		}
+		if mal == "" && r.chance(3) {
+			// every byte 0x80..0xFF once (ties Model/CsvLatin1.v latin1_decode to charmap.ISO8859_1 over the whole upper half)
+			var hi []rune
+			for c := rune(0x80); c <= 0xFF; c++ {
+				hi = append(hi, c)
+			}
+			row.texts[1] = "hi " + string(hi) + " end"
 		}
 		if r.chance(5) {
 			row.amt = c13aExotic(r)
